@@ -307,14 +307,23 @@ DiffCommon(in, obs) ==
       typeEntries == SelectSeq(oc.ds, LAMBDA e : e.name \in tnames)
       otherEntries == SelectSeq(oc.ds, LAMBDA e : e.name \notin tnames)
       inq == /\ \A i \in DOMAIN fs : InQuant(in.lang, fs[i]) /\ (in.lang = "go" => obs.files[i].accepts)
-             /\ Distinct(NamesOf(allTypes) \o NamesOf(allFuncs) \o allNested)
+             \* a type name may be declared in several files of the directory (two modules each with a class Meta): each
+             \* declaration is listed; what must stay unambiguous is type names against function and nested names
+             /\ Distinct(NamesOf(allFuncs) \o allNested)
+             /\ Range(NamesOf(allTypes)) \cap (Range(NamesOf(allFuncs)) \cup Range(allNested)) = {}
+             /\ \A i \in DOMAIN fs : Distinct(NamesOf(TypesOf(in.lang, fs[i])))
       fileOf(t) == CHOOSE i \in DOMAIN fs : t \in Range(TypesOf(in.lang, fs[i]))
   IN  IF ~inq THEN {}
       ELSE IF oc.panic THEN {Item(IF oc.accepts THEN "panic" ELSE "common-not-listed", "common", {})}
-      ELSE LET raw == EntriesDiff(allTypes, typeEntries, "common-type-missing", "common-type-duplicated",
+      ELSE LET uniq == SelectSeq(allTypes, LAMBDA t : Occ(NamesOf(allTypes), t.name) = 1)
+               multi == {n \in tnames : Occ(NamesOf(allTypes), n) > 1}
+               raw == EntriesDiff(uniq, SelectSeq(typeEntries, LAMBDA e : e.name \notin multi), "common-type-missing", "common-type-duplicated",
                                   "common-type-undeclared", "common:",
                                   LAMBDA t, e : IF in.lang = "go" THEN GoTypeDiff(fs[fileOf(t)], t, e, "common:")
                                                 ELSE PyClassDiff(t, e, "common:", allNested)) \cup
+                      \* a name declared in k files is listed k times
+                      {Item("common-type-missing", "common:" \o n, {}) : n \in {x \in multi : Occ(NamesOf(typeEntries), x) < Occ(NamesOf(allTypes), x)}} \cup
+                      {Item("common-type-duplicated", "common:" \o n, {}) : n \in {x \in multi : Occ(NamesOf(typeEntries), x) > Occ(NamesOf(allTypes), x)}} \cup
                       {Item("common-entry-undeclared", "common:" \o otherEntries[k].name, {}) :
                          k \in {x \in DOMAIN otherEntries : \/ otherEntries[x].name \notin Range(NamesOf(allFuncs))
                                                             \/ Occ(NamesOf(otherEntries), otherEntries[x].name) > 1}}
